@@ -826,7 +826,9 @@ func (p *Parser) parseInfixExp(left ast.Expression) ast.Expression {
 		return nil
 	}
 
-	exp.Right = p.parseExpression(SUM)
+	// the right operand binds as tightly as the operator itself, so that
+	// operators of equal precedence group from left to right
+	exp.Right = p.parseExpression(precedences[exp.Token.Type])
 
 	return exp
 }
